@@ -392,17 +392,18 @@ def replay_getdescriptors(model, state, ob):
     return {'failed': (k1, a) != (k2, b), 'input': "GetDescriptors('CCO') vs GetDescriptors(Chem.MolFromSmiles('CCO'))", 'observed': [k2, str(b)], 'expected': [k1, str(a)]}
 
 
-# ---- _aromatization_Benson on one ring --------------------------------------------------------------------------------------
-def u_aromatization(I):
-    ctx = I.ctx
+# ---- _aromatization_Benson: every ring judged on its own ------------------------------------------------------------------
+def _aromatization(I, sizes):
+    """rings = disjoint rings of the given sizes with symbolic element symbols and bond orders; each ring must be marked
+    exactly when IT is six carbons with alternating bonds -- whatever the other rings are (no early exit, no skipped ring)"""
     W_ = I.world
-    size = [6, 5][ctx.choose([True, True], 'ring size')]
-    ring = tuple(range(10, 10 + size))
-    sym = [I.fresh('sym%d' % i, 'str') for i in range(size)]
-    bt = [I.fresh('bond%d' % i, 'int') for i in range(size)]       # bond i joins ring[i] and ring[(i+1)%size]
+    rings = [tuple(range(10 * (r + 1), 10 * (r + 1) + size)) for r, size in enumerate(sizes)]
+    where = {a: (r, i) for r, ring in enumerate(rings) for i, a in enumerate(ring)}
+    sym = {(r, i): I.fresh('sym%d_%d' % (r, i), 'str') for r, ring in enumerate(rings) for i in range(len(ring))}
+    bt = {(r, i): I.fresh('bond%d_%d' % (r, i), 'int') for r, ring in enumerate(rings) for i in range(len(ring))}   # bond i joins ring[i], ring[i+1]
     marks = {'atoms': set(), 'bonds_arom': set(), 'bonds_conj': set(), 'bonds_type': {}}
     ch = W_.externs['rdkit.Chem'].members
-    ch['GetSymmSSSR'] = Builtin('GetSymmSSSR', lambda I_, a, k: [ring])
+    ch['GetSymmSSSR'] = Builtin('GetSymmSSSR', lambda I_, a, k: list(rings))
     RAtom, RBond, RMol = BuiltinClass('RAtom'), BuiltinClass('RBond'), BuiltinClass('RMol')
 
     def ratom_attr(I_, o, name):
@@ -428,14 +429,17 @@ def u_aromatization(I):
 
     def rmol_attr(I_, o, name):
         if name == 'GetAtomWithIdx':
-            return Builtin('GetAtomWithIdx', lambda I2, a, k: Obj(RAtom, {'i': ring.index(a[0])}, 'param'))
+            return Builtin('GetAtomWithIdx', lambda I2, a, k: Obj(RAtom, {'i': where[a[0]]}, 'param'))
         if name == 'GetBondBetweenAtoms':
             def gb(I2, a, k):
-                i, j = ring.index(a[0]), ring.index(a[1])
+                (r, i), (r2, j) = where[a[0]], where[a[1]]
+                size = len(rings[r])
+                if r != r2:
+                    return None
                 if (i + 1) % size == j:
-                    return Obj(RBond, {'b': i}, 'param')
+                    return Obj(RBond, {'b': (r, i)}, 'param')
                 if (j + 1) % size == i:
-                    return Obj(RBond, {'b': j}, 'param')
+                    return Obj(RBond, {'b': (r, j)}, 'param')
                 return None
             return Builtin('GetBondBetweenAtoms', gb)
         return NotImplementedVal
@@ -445,20 +449,34 @@ def u_aromatization(I):
     mol = Obj(RMol, {}, 'param')
     out = run_target(I, SCHEME, '_aromatization_Benson', [mol])
     S, D, A = BOND_CODES['SINGLE'], BOND_CODES['DOUBLE'], BOND_CODES['AROMATIC']
-    if size == 6:
-        allC = z3.And([s == z3.StringVal('C') for s in sym])
-        alt = z3.Or(z3.And([bt[i] == (S if i % 2 == 0 else D) for i in range(6)]), z3.And([bt[i] == (D if i % 2 == 0 else S) for i in range(6)]))
-        want = z3.And(allC, alt)
-    else:
-        want = z3.BoolVal(False)
-    marked = marks['atoms'] == set(range(size)) and marks['bonds_arom'] == set(range(size)) and marks['bonds_conj'] == set(range(size)) \
-        and set(marks['bonds_type']) == set(range(size))
-    untouched = not marks['atoms'] and not marks['bonds_arom'] and not marks['bonds_conj'] and not marks['bonds_type']
-    check_outcome(I, out, raises={}, returns=lambda r: [
-        ('a ring is either marked completely (six atoms, six bonds: aromatic flag, conjugation, AROMATIC type) or not touched at all', z3.BoolVal(marked or untouched)),
-        ('marked  <=>  six carbons with alternating single/double bonds in either phase', z3.BoolVal(marked) == want),
-        ('marked bonds get the AROMATIC type', z3.And([z3_of(marks['bonds_type'][b]) == A for b in marks['bonds_type']]) if marks['bonds_type'] else z3.BoolVal(True))])
+    obl = []
+    for r, ring in enumerate(rings):
+        size = len(ring)
+        tag = '' if len(rings) == 1 else ' [ring %d of %d]' % (r + 1, len(rings))
+        if size == 6:
+            allC = z3.And([sym[(r, i)] == z3.StringVal('C') for i in range(6)])
+            alt = z3.Or(z3.And([bt[(r, i)] == (S if i % 2 == 0 else D) for i in range(6)]), z3.And([bt[(r, i)] == (D if i % 2 == 0 else S) for i in range(6)]))
+            want = z3.And(allC, alt)
+        else:
+            want = z3.BoolVal(False)
+        mine = set((r, i) for i in range(size))
+        got = {k: set(x for x in marks[k] if x[0] == r) for k in ('atoms', 'bonds_arom', 'bonds_conj')}
+        types = {b: v for b, v in marks['bonds_type'].items() if b[0] == r}
+        marked = got['atoms'] == mine and got['bonds_arom'] == mine and got['bonds_conj'] == mine and set(types) == mine
+        untouched = not got['atoms'] and not got['bonds_arom'] and not got['bonds_conj'] and not types
+        obl += [('a ring is either marked completely (six atoms, six bonds: aromatic flag, conjugation, AROMATIC type) or not touched at all' + tag, z3.BoolVal(marked or untouched)),
+                ('marked  <=>  six carbons with alternating single/double bonds in either phase' + tag, z3.BoolVal(marked) == want),
+                ('marked bonds get the AROMATIC type' + tag, z3.And([z3_of(types[b]) == A for b in types]) if types else z3.BoolVal(True))]
+    check_outcome(I, out, raises={}, returns=lambda res: obl)
     return {'inputs': {}}
+
+
+def u_aromatization(I):
+    return _aromatization(I, [[6], [5]][I.ctx.choose([True, True], 'ring size')])
+
+
+def u_aromatization_two(I):
+    return _aromatization(I, [[6, 6], [5, 6], [6, 5]][I.ctx.choose([True, True, True], 'ring sizes')])
 
 
 UNITS = [
@@ -466,6 +484,7 @@ UNITS = [
     Unit('GroupAdditivityScheme._AssignCenterPattern', (SCHEME, 'GroupAdditivityScheme._AssignCenterPattern'), u_assign_center),
     Unit('GroupAdditivityScheme._AssignDescriptor', (SCHEME, 'GroupAdditivityScheme._AssignDescriptor'), u_assign_descriptor, replay_descriptor),
     Unit('_aromatization_Benson', (SCHEME, '_aromatization_Benson'), u_aromatization),
+    Unit('_aromatization_Benson[two disjoint rings]', (SCHEME, '_aromatization_Benson'), u_aromatization_two),
 ]
 STANDINS = [standins.c02_reference]
 
